@@ -110,7 +110,8 @@ def negotiation_interventions(ctx):
 def run(ctx: Ctx) -> int:
     warnings.simplefilter("ignore")
     thorough = ctx.tier == "thorough"
-    for cfg, want in (("MC_Notify_ok.cfg", None), ("MC_Notify_nocatch.cfg", "C26_Contained"), ("MC_Notify_nolog.cfg", "C26_Contained")):
+    for cfg, want in (("MC_Notify_ok.cfg", None), ("MC_Notify_nocatch.cfg", "C26_Contained"), ("MC_Notify_nolog.cfg", "C26_Contained"),
+                      ("MC_Notify_prot.cfg", None), ("MC_Notify_unprot.cfg", "C26_Contained")):
         r = must_ok(run_tlc("MC_Notify", cfg, workdir=ctx.work, workers=4, timeout=900))
         ctx.add_tlc(r)
         if want is None and r.violated:
@@ -133,6 +134,8 @@ def run(ctx: Ctx) -> int:
         fl = FLAVOURS if thorough else [FLAVOURS[k % len(FLAVOURS)], "noname"]
         for f in dict.fromkeys(fl):
             jobs.append((sc, {"events": "all", "flavour": f}))
+        # two handlers bound to every event, both raising: the first one's exception ends the event's handler loop
+        jobs.append((sc, {"events": "all", "flavour": FLAVOURS[(k + 1) % len(FLAVOURS)], "handlers": 2}))
         evs = names if thorough else rng.sample(names, 4)
         for e in evs:
             jobs.append((sc, {"events": [e], "flavour": rng.choice(FLAVOURS)}))
@@ -168,7 +171,7 @@ def run(ctx: Ctx) -> int:
         v = vs[o["id"]][0]
         ctx.traces += 1
         sc, raises = o["sc"], o["raises"]
-        ctx.case((tuple(sc["ops"]), sc["end"], sc["acc"], str(sc["reject"]), str(raises["events"])[:40], raises["flavour"]), nontrivial=True)
+        ctx.case((tuple(sc["ops"]), sc["end"], sc["acc"], str(sc["reject"]), str(raises["events"])[:40], raises["flavour"], raises.get("handlers", 1)), nontrivial=True)
         if v in ("UNSTABLE", "VACUOUS"):
             unstable += 1
             continue
@@ -176,7 +179,7 @@ def run(ctx: Ctx) -> int:
             ev = raises["events"] if isinstance(raises["events"], str) else (raises["events"][0] if isinstance(raises["events"][0], str) else "subset")
             diff = {k: (o["ref"][k], o["run"][k]) for k in o["ref"] if o["ref"][k] != o["run"][k]}
             ctx.violation({"clause": v, "flavour": raises["flavour"], "event": ev},
-                          f"{v}: scenario {sc} with notification handlers raising at {raises['events']} ({raises['flavour']}): differs from the quiet run in {diff}; threads died: {o['crash_msgs']}",
+                          f"{v}: scenario {sc} with notification handlers raising at {raises['events']} ({raises['flavour']}, {raises.get('handlers', 1)} handler(s) per event): differs from the quiet run in {diff}; threads died: {o['crash_msgs']}",
                           {"sc": sc, "raises": raises})
     ctx.cov["reference_unstable_or_vacuous"] = unstable
     if unstable > len(obs) // 3:
